@@ -617,14 +617,14 @@ class AccessoryConn(asyncio.Protocol):
 class World:
     """One scenario world: accessory + network + real IpPairing. Use inside a VirtualLoop coroutine."""
 
-    def __init__(self, rng, hosts=("10.0.0.5",), behaviour=None, port=51826):
+    def __init__(self, rng, hosts=("10.0.0.5",), behaviour=None, port=51826, ios_pairing_id=None):
         from aiohomekit.characteristic_cache import CharacteristicCacheMemory
         from aiohomekit.controller.ip.controller import IpController
         from aiohomekit.controller.ip.pairing import IpPairing
 
         self.rng = rng
         self.hosts = list(hosts)
-        self.accessory = HapIpAccessory(rng)
+        self.accessory = HapIpAccessory(rng) if ios_pairing_id is None else HapIpAccessory(rng, ios_pairing_id=ios_pairing_id)
         self.behaviour = behaviour or (lambda host, attempt: "accept")
         self.net = Net(lambda h, a: self.behaviour(h, a), self.accessory.accept).install()
         self.controller = IpController(char_cache=CharacteristicCacheMemory(), zeroconf_instance=None)
